@@ -13,6 +13,9 @@ Decides:
   R13.4 alignment width is the maximum display width over the sources that have a pending message.
   R13.5 colour escape bytes come only from termcolor set_color/reset, and only in variants
         dispatched with colour on.
+  R13.6 evtx and journal message buffers end with a newline on every path (the decorated variants
+        only print newline-terminated pieces, so otherwise they would drop the tail that the
+        undecorated variants print).
 Does not decide: exact escape bytes, unicode width of exotic names, strftime rendering.
 """
 import decide
@@ -428,6 +431,73 @@ def run(prog, rep, tier):
         if not ok:
             rep.violation(R134, inst, "processing_loop: the alignment width (line %d) is computed over %s, not over the sources that have a pending message; a silent or filtered-out file with a long name would widen every line" % (
                 w.line, [t.split("<")[0] for t in tys]))
+
+    # ------------------------------------------------------------ R13.6
+    R136 = rep.rule("R13.6", "evtx/journal message buffers end with a newline (decorated variants print whole newline-terminated pieces only)")
+    from c08 import var_of as _var_of
+    from c16 import const_of as _const_of
+
+    def last_appends(b_, call, buf):
+        """the appending calls on `buf` that can be the last one before `call` (backward over the CFG)"""
+        APP = ("push", "push_str", "extend_from_slice", "extend", "push_char", "write_all", "append", "insert_str")
+        res = []
+        seen = set()
+        stack = [(call.bb, True)]
+        while stack:
+            bb, first = stack.pop()
+            if (bb, first) in seen:
+                continue
+            seen.add((bb, first))
+            t = b_.term(bb)
+            hit = None
+            if not first and t[0] == "call" and t[1].get("d", "").split("::")[-1] in APP and t[2]:
+                recv = set()
+                for o in b_.origins(t[2][0]):
+                    if o[0] == "local":
+                        recv.add(o[1])
+                    elif o[0] == "call":
+                        recv.add(b_.term(o[1])[3][0])
+                if buf in recv or _var_of(b_, t[2][0]) == buf:
+                    hit = (bb, t[1]["d"].split("::")[-1], _const_of(b_, t[2][1]) if len(t[2]) > 1 else None)
+            if hit:
+                res.append(hit)
+                continue
+            for p_ in b_.pred[bb]:
+                if p_ in b_.live:
+                    stack.append((p_, False))
+        return res
+
+    JR_ = "s4lib::readers::journalreader::JournalReader::"
+    for fn in ("next_short", "next_export", "next_verbose", "next_cat"):
+        rb = prog.body(JR_ + fn)
+        ctors = [c for c in rb.live_calls() if c.d.startswith("s4lib::data::journal::JournalEntry::") and c.d.split("::")[-1] in ("new", "new_with_date", "from_vec", "from_vec_nodt", "from_buffer")]
+        if not ctors:
+            raise CheckerError("%s: no JournalEntry constructor call" % fn)
+        for c in ctors:
+            buf = _var_of(rb, c.args[0])
+            if buf is None:
+                raise CheckerError("%s: buffer given to the JournalEntry constructor is not a variable" % fn)
+            la = last_appends(rb, c, buf)
+            bad = [x for x in la if not ((isinstance(x[2], int) and x[2] == 10) or (isinstance(x[2], str) and x[2].endswith("\n")))]
+            rep.examined(R136, JR_ + fn, sample={"renderer": fn, "possible_last_appends": [(x[1], x[2] if not isinstance(x[2], str) else x[2][-8:]) for x in la][:6]})
+            if not la or bad:
+                rep.violation(R136, JR_ + fn, "%s: the entry text handed to JournalEntry may not end with a newline (last append %s); the prepend/colour variants print only newline-terminated pieces, so the tail would be printed undecorated-only" % (
+                    fn, [(x[1], x[2]) for x in (bad or la)][:2]))
+    eb_ = prog.body("s4lib::data::evtx::Evtx::from_evtxrs")
+    okn = False
+    for bb in sorted(eb_.live):
+        for st in eb_.stmts(bb):
+            if st[0] == "=" and st[2][0] == "agg" and isinstance(st[2][1], dict) and st[2][1].get("adt", "").endswith("evtx::Evtx"):
+                names = st[2][1]["fields"]
+                if "data" in names:
+                    for o in eb_.origins(st[2][2][names.index("data")]):
+                        if o[0] == "call" and o[2].endswith("::add"):
+                            ac = [z for z in eb_.calls if z.bb == o[1]][0]
+                            v_ = _const_of(eb_, ac.args[1])
+                            okn = isinstance(v_, str) and v_.endswith("\n")
+    rep.examined(R136, eb_.path, sample={"data_is_record_text_plus_newline": okn})
+    if not okn:
+        rep.violation(R136, eb_.path, "Evtx::from_evtxrs: the record text is not terminated with a newline; the prepend/colour variants print only newline-terminated pieces")
 
     return rep.finish(
         "Static necessary-condition check of the decoration path: for all 8 flag combinations of all 4 dispatchers the selected variant writes, "
